@@ -133,6 +133,7 @@ class Env:
         for fact in table_facts():
             c.assume(fact)
         st.declare("cls", A(I))
+        st.declare("role", A(I))               # mating role of a gear: 1 master, 2 slave, anything else None (unconstrained)
         for f, kind in QFIELDS.values():
             st.declare(f"{f}_val", A(R))          # SI magnitude (the raw value is derived: si / fac(unit))
             st.declare(f"{f}_unit", A(I))
@@ -326,6 +327,12 @@ class SymRange:
         if step not in (1, -1):
             raise EngineError("symbolic range with |step| != 1")
 
+    def __reversed__(self):
+        # reversed(range(a, b)) == range(b - 1, a - 1, -1);  reversed(range(a, b, -1)) == range(b + 1, a + 1)
+        if self.step == 1:
+            return SymRange(symint(self.stop - 1), symint(self.start - 1), -1)
+        return SymRange(symint(self.stop + 1), symint(self.start + 1), 1)
+
     def vc_iter(self):
         if self.step == 1:
             # k in [start, stop); exit value = max(start, stop)
@@ -479,6 +486,17 @@ class ElemRef:
             return None
         if name == "name":
             return "<element>"
+        if name == "mating_role":
+            # gears only; the role is an unconstrained part of the abstract state (an idler is slave of one mating and
+            # master of the next: the later declaration wins), returned as the real role classes so every test works
+            self._require_class(HAS_EXTERNAL_TORQUE, name)
+            from gearpy.mechanical_objects import MatingMaster, MatingSlave
+            r = z3.Select(st["role"], i)
+            if c.decide(r == 1):
+                return MatingMaster
+            if c.decide(r == 2):
+                return MatingSlave
+            return None
         if name == "tangential_force_is_computable":
             self._require_class(HAS_FORCE, name)
             return SymBool(z3.Select(st["tfc"], i))
@@ -612,6 +630,11 @@ def sym_hasattr(obj, name):
             return SymBool(obj._in(HAS_EXTERNAL_TORQUE))
         if name in ("master_gear_ratio", "master_gear_efficiency"):
             return SymBool(obj._in(HAS_RATIO))
+        if name == "mating_role":
+            return SymBool(obj._in(HAS_EXTERNAL_TORQUE))
+        if name in QFIELDS:
+            f = QFIELDS[name][0]
+            return True if f not in FLAG_OF else SymBool(obj._in(HAS_FORCE if f == "force" else HAS_STRESS))
         raise EngineError(f"hasattr(element, {name!r}) not modelled")
     import builtins
     return builtins.hasattr(obj, name)
